@@ -164,24 +164,31 @@ theorem next_growth_log (inp : List UInt8) (G : Prop) (fuel : Nat) (r : Reader) 
       fun c a h => by cases h⟩
   | new =>
     simp only [Good, hst] at hg
-    obtain ⟨hw, hbuf, hcur, hp0, hbyte, hline, hip, hitems⟩ := hg
-    obtain ⟨br', ext, n, hfill, hbuf', hcap', hcur', hext, hw2, he2, hn⟩ := fill_win inp G r hw
+    obtain ⟨hw, hbufG, hp0, hbyte, hline, hip, hitems⟩ := hg
     rw [hw.inp_eq] at hfuel
-    cases n with
-    | zero =>
-      have : next fuel r = ({ r with br := br', state := .finished }, .ok false) := by
+    rcases fill_cases inp G r hw with
+      ⟨br', ext, n, hfill, hbuf', hcap', hcur', hext, hw2, he2, hn⟩ |
+      ⟨br', ext, k, hfill, hbuf', hcap', hcur', hle, hnG, hw2⟩
+    · cases n with
+      | zero =>
+        have : next fuel r = ({ r with br := br', state := .finished }, .ok false) := by
+          simp only [next, hst, init, hfill]
+        rw [this]
+        exact ⟨[], false, by simp, by simp only [hcap']; exact GrowLog.nil _,
+          ⟨fun h => (by cases h), fun h => (by cases h)⟩, fun c a h => by cases h⟩
+      | succ n =>
+        have : next fuel r = nextCont fuel { r with br := br', state := .parsing } := by
+          simp only [next, hst, init, hfill]
+        rw [this]
+        have hb2 : Base inp G { r with br := br' } := ⟨hw2, by simp [hp0]⟩
+        exact conv _ _ (nextCont_log inp G fuel { r with br := br', state := .parsing }
+          (hb2.set_state .parsing) he2 (by intro ip h; simp only [hip] at h; cases h) hfuel)
+          rfl hcap' (by simp only [nextByte, hst])
+    · have : next fuel r = ({ r with br := br', state := .new }, .err (.io k)) := by
         simp only [next, hst, init, hfill]
       rw [this]
       exact ⟨[], false, by simp, by simp only [hcap']; exact GrowLog.nil _,
         ⟨fun h => (by cases h), fun h => (by cases h)⟩, fun c a h => by cases h⟩
-    | succ n =>
-      have : next fuel r = nextCont fuel { r with br := br', state := .parsing } := by
-        simp only [next, hst, init, hfill]
-      rw [this]
-      have hb2 : Base inp G { r with br := br' } := ⟨hw2, by simp [hp0]⟩
-      exact conv _ _ (nextCont_log inp G fuel { r with br := br', state := .parsing }
-        (hb2.set_state .parsing) he2 (by intro ip h; simp only [hip] at h; cases h) hfuel)
-        rfl hcap' (by simp only [nextByte, hst])
   | parsing =>
     simp only [Good, hst] at hg
     obtain ⟨hb, he, hip, h01, h1l, hitems⟩ := hg
@@ -229,7 +236,7 @@ theorem good_its_at {inp G r its} (h : Good inp G r its) (hst : r.state ≠ .fin
   | finished => exact absurd hs hst
   | new =>
     simp only [Good, hs] at h
-    exact ⟨1, by simp only [nextByte, hs, h.2.2.2.2.1]; exact h.2.2.2.2.2.2.2⟩
+    exact ⟨1, by simp only [nextByte, hs, h.2.2.2.1]; exact h.2.2.2.2.2.2⟩
   | positioned =>
     simp only [Good, hs] at h
     exact ⟨_, by simp only [nextByte, hs]; exact h.2.2.2⟩
@@ -262,18 +269,21 @@ theorem quiet_next (inp : List UInt8) (cap : Nat) (hfit : AllFit inp cap) (r : R
       exact h4 _ _ hmem (hfit _ (hstart hst))
   subst hnew
   refine ⟨?_, by rw [h1, hlog]; rfl, by rw [h2.nil_inv.1, hcap], ?_⟩
-  · rcases hF with ⟨-, x, its', -, hsh⟩ | ⟨-, -, hfin⟩ | ⟨e, b', l, -, -, hfin⟩ | ⟨-, -, hfin⟩
+  · rcases hF with (⟨-, x, its', -, hsh⟩ | ⟨-, -, hfin⟩ | ⟨e, b', l, -, -, hfin⟩ |
+      ⟨e, -, -, -, hfin⟩) | ⟨-, -, its', hg', -⟩
     · exact ⟨its', hsh.good⟩
     · exact ⟨[], hfin.good⟩
     · exact ⟨[], hfin.good⟩
     · exact ⟨[], hfin.good⟩
+    · exact ⟨its', hg'⟩
   · intro hnf
-    rcases hF with ⟨-, x, its', hi, hsh⟩ | ⟨-, -, hfin⟩ | ⟨e, b', l, -, -, hfin⟩ | ⟨-, -, hfin⟩
+    rcases hF with (⟨-, x, its', hi, hsh⟩ | ⟨-, -, hfin⟩ | ⟨e, b', l, -, -, hfin⟩ |
+      ⟨e, -, -, -, hfin⟩) | ⟨-, -, its', hg', hst'⟩
     · rcases hsh.rest with ⟨hst', -, -, -, h4'⟩ | ⟨hst', -⟩
       · have hst0 : r.state ≠ .finished := by
           intro hf
           simp only [Good, hf] at hg
-          rw [hg.2.2] at hi
+          rw [hg.2] at hi
           cases hi
         obtain ⟨l, hl⟩ := good_its_at hg hst0
         have hx := itemsAt_head_record (hl ▸ hi)
@@ -285,6 +295,12 @@ theorem quiet_next (inp : List UInt8) (cap : Nat) (hfit : AllFit inp cap) (r : R
     · exact absurd hfin.1 hnf
     · exact absurd hfin.1 hnf
     · exact absurd hfin.1 hnf
+    · rcases hst' with hst' | hst'
+      · exact absurd hst' hnf
+      · have hg'' := hg'
+        simp only [Good, hst'] at hg''
+        simp only [nextByte, hst', hg''.2.2.2.1]
+        exact IsStart.zero
 
 /-- **C09, corollary.** If every group of the input fits into the initial capacity, the policy
 is never asked: the log stays empty and the capacity unchanged for any number of `next`
@@ -300,8 +316,8 @@ theorem fitting_never_grows (inp : List UInt8) (cap : Nat) (hcap : 3 ≤ cap) (p
     | zero => intro r h; exact h
     | succ k ih => intro r h; exact ih _ (quiet_next inp cap hfit r h)
   have h0 : Quiet inp cap (mkReader inp cap pol script chunk) :=
-    ⟨⟨_, good_mkReader' inp False cap hcap pol hwf (fun h => h.elim) script hs chunk⟩, rfl, rfl,
-      fun _ => IsStart.zero⟩
+    ⟨⟨_, good_mkReader'' inp False cap hcap pol hwf (fun h => h.elim) script (fun _ => hs) chunk []
+      (fun _ => rfl)⟩, rfl, rfl, fun _ => IsStart.zero⟩
   exact ⟨(hq k _ h0).2.1, (hq k _ h0).2.2.1⟩
 
 end SeqIo.Fastq
